@@ -114,7 +114,9 @@ class SlliOp(RV32RdRsImmShiftOperation):
 
     def py_operation(self, rs1: IntegerAttr[I32]) -> IntegerAttr[I32]:
         assert isinstance(self.immediate, IntegerAttr)
-        return IntegerAttr(rs1.value.data << self.immediate.value.data, i32)
+        return IntegerAttr(
+            rs1.value.data << self.immediate.value.data, i32, truncate_bits=True
+        )
 
 
 @irdl_op_definition
@@ -151,7 +153,11 @@ class BclrIOp(RV32RdRsImmShiftOperation):
 
     def py_operation(self, rs1: IntegerAttr[I32]) -> IntegerAttr[I32]:
         assert isinstance(self.immediate, IntegerAttr)
-        return IntegerAttr(rs1.value.data & (~(1 << self.immediate.value.data)), i32)
+        return IntegerAttr(
+            rs1.value.data & (~(1 << self.immediate.value.data)),
+            i32,
+            truncate_bits=True,
+        )
 
 
 @irdl_op_definition
@@ -187,7 +193,9 @@ class BinvIOp(RV32RdRsImmShiftOperation):
 
     def py_operation(self, rs1: IntegerAttr[I32]) -> IntegerAttr[I32]:
         assert isinstance(self.immediate, IntegerAttr)
-        return IntegerAttr(rs1.value.data ^ (1 << self.immediate.value.data), i32)
+        return IntegerAttr(
+            rs1.value.data ^ (1 << self.immediate.value.data), i32, truncate_bits=True
+        )
 
 
 @irdl_op_definition
